@@ -2,6 +2,7 @@ package main
 
 import (
 	"fmt"
+	"math"
 	"math/rand"
 
 	"github.com/yaricom/goNEAT/v4/neat/network"
@@ -74,18 +75,32 @@ func c04Mating(c *Ctx, f *Family, r *rand.Rand) {
 	op := opKind(int(opMateMultipoint) + r.Intn(3))
 	fa, fb := r.Float64()*10, r.Float64()*10
 	ordering := "<"
-	switch r.Intn(3) {
-	case 0:
+	if r.Intn(40) == 0 {
+		// a tie at infinity is a tie as well (a fitness that overflowed on both sides)
+		fa = math.Inf(1 - 2*r.Intn(2))
 		fb = fa
 		ordering = "="
-	case 1:
-		if fa < fb {
-			fa, fb = fb, fa
-		}
-		ordering = ">"
+		c.Count("pairs.tie_at_infinity", 1)
+	} else {
+		ordering = ""
+	}
+	switch {
+	case ordering == "=":
 	default:
-		if fa > fb {
-			fa, fb = fb, fa
+		switch r.Intn(3) {
+		case 0:
+			fb = fa
+			ordering = "="
+		case 1:
+			if fa < fb {
+				fa, fb = fb, fa
+			}
+			ordering = ">"
+		default:
+			ordering = "<"
+			if fa > fb {
+				fa, fb = fb, fa
+			}
 		}
 	}
 	sa, sb := snapGenome(a), snapGenome(b)
@@ -94,7 +109,7 @@ func c04Mating(c *Ctx, f *Family, r *rand.Rand) {
 	c.Eval(1)
 	c.Count("matings."+op.String(), 1)
 	detail := func() map[string]interface{} {
-		d := map[string]interface{}{"method": op.String(), "fitness1": fa, "fitness2": fb, "parent1": sa, "parent2": sb, "start": f.StartSrc}
+		d := map[string]interface{}{"method": op.String(), "fitness1": fmt.Sprint(fa), "fitness2": fmt.Sprint(fb), "parent1": sa, "parent2": sb, "start": f.StartSrc}
 		if child != nil {
 			d["child"] = snapGenome(child)
 		}
